@@ -27,9 +27,23 @@
 #ifndef C01_SCOPE
 #define C01_SCOPE 1
 #endif
-#include "math/big_num.h"
 #include "vh.h"
 #include "ref.h"
+
+/* The library is header-only, so its calls to memmove/memset/memcpy can be routed through a
+ * size check: a length above 1 MiB can only be a wrapped-around size_t.  Reported as clause
+ * "wild-mem-size" and the library call is abandoned (ASan would abort the whole process on
+ * such a call; normal sizes still go to ASan's interceptors). */
+static void *c01_memmove(void *d, const void *s, size_t n);
+static void *c01_memcpy(void *d, const void *s, size_t n);
+static void *c01_memset(void *d, int c, size_t n);
+#define memmove	c01_memmove
+#define memcpy	c01_memcpy
+#define memset	c01_memset
+#include "math/big_num.h"
+#undef memmove
+#undef memcpy
+#undef memset
 
 #define W	((int)BN_DIGIT_BITS)
 #define DSZ	((size_t)BN_DIGIT_SIZE)
@@ -85,10 +99,23 @@ arena_init(void) {
 static int g_crashed = 0;
 static void
 crash_report(void) {
+	if (g_crashed) return;	/* wild size already reported */
 	g_crashed = 1;
-	if (0 == vh_case_failed)	/* an ASan report for the same call has already been recorded otherwise */
-		vh_fail("crash", "signal %d inside the library call", g_sig);
+	vh_fail("fault-signal", "signal %d inside the library call", g_sig);
 }
+
+static void
+wild_size(const char *fn, size_t n) {
+	if (0 == vh_case_failed || 1)
+		vh_fail("wild-mem-size", "%s called with size %zu (size_t wrap-around) inside the library call", fn, n);
+	g_crashed = 1;
+	if (g_armed) { g_armed = 0; siglongjmp(g_jb, 2); }
+	abort();
+}
+#define WILD (((size_t)1) << 20)
+static void *c01_memmove(void *d, const void *s, size_t n) { if (n > WILD) wild_size("memmove", n); return (memmove(d, s, n)); }
+static void *c01_memcpy(void *d, const void *s, size_t n) { if (n > WILD) wild_size("memcpy", n); return (memcpy(d, s, n)); }
+static void *c01_memset(void *d, int c, size_t n) { if (n > WILD) wild_size("memset", n); return (memset(d, c, n)); }
 
 /* ------------------------------------------------------------------ per target call counter */
 static uint64_t calls_by_target[VH_MAX_TARGETS];
